@@ -82,6 +82,80 @@ theorem chisq_cons_gt (asym : Bool) (m : Meas) (ms : List Meas) (h : pullOf asym
   have : 0 < pullOf asym m ^ 2 := by positivity
   linarith
 
+/-- sub-multisets: any predicate splits the points into two groups whose χ² add up to the total -/
+theorem chisq_filter_add (asym : Bool) (p : Meas → Bool) (ms : List Meas) :
+    chisq asym (ms.filter p) + chisq asym (ms.filter (fun m => !p m)) = chisq asym ms := by
+  induction ms with
+  | nil => simp [chisq]
+  | cons m ms ih =>
+    have hc : ∀ l : List Meas, chisq asym (m :: l) = pullOf asym m ^ 2 + chisq asym l := by
+      intro l; simp [chisq_eq_sum]
+    cases hp : p m <;> simp only [List.filter_cons, hp, Bool.not_true, Bool.not_false,
+      if_true, if_false, Bool.false_eq_true] <;> rw [hc, hc] <;> linarith
+
+/-- a sub-selection (points dropped, order kept) never has a larger χ² than the whole selection -/
+theorem chisq_sublist_le (asym : Bool) {a b : List Meas} (h : a.Sublist b) :
+    chisq asym a ≤ chisq asym b := by
+  induction h with
+  | slnil => exact le_refl _
+  | cons m _ ih =>
+    have hc : ∀ l : List Meas, chisq asym (m :: l) = pullOf asym m ^ 2 + chisq asym l := by
+      intro l; simp [chisq_eq_sum]
+    rw [hc]; have : 0 ≤ pullOf asym m ^ 2 := by positivity
+    linarith
+  | cons_cons m _ ih =>
+    have hc : ∀ l : List Meas, chisq asym (m :: l) = pullOf asym m ^ 2 + chisq asym l := by
+      intro l; simp [chisq_eq_sum]
+    rw [hc, hc]; linarith
+
+/-- … also for sub-multisets taken in any order -/
+theorem chisq_subperm_le (asym : Bool) {a b : List Meas} (h : a.Subperm b) :
+    chisq asym a ≤ chisq asym b := by
+  obtain ⟨l, hp, hs⟩ := h
+  rw [← chisq_perm asym hp]; exact chisq_sublist_le asym hs
+
+/-- χ² vanishes exactly when every pull does: no cancellation between points -/
+theorem chisq_eq_zero_iff (asym : Bool) (ms : List Meas) :
+    chisq asym ms = 0 ↔ ∀ m ∈ ms, pullOf asym m = 0 := by
+  induction ms with
+  | nil => simp [chisq]
+  | cons m ms ih =>
+    have hc : chisq asym (m :: ms) = pullOf asym m ^ 2 + chisq asym ms := by simp [chisq_eq_sum]
+    have h1 : 0 ≤ pullOf asym m ^ 2 := by positivity
+    have h2 := chisq_nonneg asym ms
+    rw [hc, List.forall_mem_cons, ← ih]
+    constructor
+    · intro h
+      have ha : pullOf asym m ^ 2 = 0 := by linarith
+      exact ⟨by simpa using ha, by linarith⟩
+    · rintro ⟨ha, hb⟩; rw [ha, hb]; ring
+
+/-- when upper and lower uncertainties both equal the total one, `asym` changes nothing -/
+theorem pullOf_asym_eq_sym (m : Meas) (hp : m.errplus = m.err) (hm : m.errminus = m.err) :
+    pullOf true m = pullOf false m := by
+  simp only [pullOf, hp, hm, if_true, Bool.false_eq_true, if_false]; split <;> rfl
+
+theorem chisq_asym_eq_sym (ms : List Meas)
+    (h : ∀ m ∈ ms, m.errplus = m.err ∧ m.errminus = m.err) : chisq true ms = chisq false ms := by
+  rw [chisq_eq_sum, chisq_eq_sum]
+  congr 1
+  apply List.map_congr_left
+  intro m hm; rw [pullOf_asym_eq_sym m (h m hm).1 (h m hm).2]
+
+/-- the symmetric branch is `pull`: Theory.chisq_single(asym=False) and Theory.pull use one formula -/
+theorem pullOf_false_eq_pull (m : Meas) : pullOf false m = pull m := by
+  simp [pullOf, pull]
+
+/-- exchanging prediction and measurement flips the sign of the pull and leaves the symmetric χ² alone -/
+theorem pull_swap (m : Meas) : pull { m with pred := m.val, val := m.pred } = - pull m := by
+  simp only [pull]; ring
+
+/-- scaling every quantity of a point by a common factor (a change of units) leaves its pull unchanged -/
+theorem pull_scale (m : Meas) (c : ℝ) (hc : c ≠ 0) :
+    pull { m with pred := c * m.pred, val := c * m.val, err := c * m.err } = pull m := by
+  simp only [pull]
+  rw [← mul_sub, mul_div_mul_left _ _ hc]
+
 /-- non-vacuity: a concrete pair of measurements, both error branches hit -/
 example : chisq true [⟨3, 1, 1, 2, 4⟩, ⟨1, 3, 1, 2, 4⟩] = 1 + 1 / 4 := by
   rw [chisq_eq_sum]
